@@ -1,10 +1,18 @@
 package main
 
 import (
+	"context"
+	"encoding/json"
 	"errors"
 	"fmt"
+	"os"
+	"os/exec"
+	"regexp"
+	"runtime/debug"
 	"strings"
+	"sync"
 	"time"
+	"unsafe"
 
 	"github.com/robertkrimen/otto"
 
@@ -62,6 +70,101 @@ type bzMp map[string]int
 
 type bzStringer struct{ n int }
 
+type bzDeep struct {
+	L1 map[string][]map[string]*bzT
+	L2 [][][]int
+	L3 map[string]map[string][]interface{}
+	A  [2][2]int
+	PA *[2]bzT
+	Fn func(int) int
+	Ch chan int
+	NM map[string]int
+	NS []string
+	PI *int
+	PP **bzT
+	E  error
+	St fmt.Stringer
+	T  time.Time
+	D  time.Duration
+	Cx complex128
+	R  json.RawMessage
+	V  otto.Value
+	O  *otto.Object
+	U  unsafe.Pointer
+	un int
+}
+
+type bzSelf struct {
+	Name string
+	Self *bzSelf
+	Kids []*bzSelf
+	M    map[string]*bzSelf
+	I    interface{}
+}
+
+type bzJSON struct{ A int }
+
+func (j bzJSON) MarshalJSON() ([]byte, error) { return nil, errors.New("marshal fails") }
+
+type bzJSONBad struct{ A int }
+
+func (j bzJSONBad) MarshalJSON() ([]byte, error) { return []byte("{not json"), nil }
+
+type bzText struct{ s string }
+
+func (t *bzText) UnmarshalText(b []byte) error {
+	if len(b) == 0 {
+		return errors.New("empty")
+	}
+	t.s = string(b)
+	return nil
+}
+
+type bzIface interface{ M() int }
+type bzImpl struct{ N int }
+
+func (i *bzImpl) M() int { return i.N }
+
+type bzEmbIface struct {
+	bzIface
+	fmt.Stringer
+	X int
+}
+
+type bzMeth struct{ C int }
+
+func (m bzMeth) Val(n int) int                      { return m.C + n }
+func (m *bzMeth) Ptr(n int) int                     { m.C += n; return m.C }
+func (m bzMeth) Two() (int, error)                  { return m.C, errors.New("second") }
+func (m bzMeth) Three() (int, string, []int)        { return 1, "s", nil }
+func (m bzMeth) None()                              {}
+func (m bzMeth) Variadic(a int, r ...string) int    { return a + len(r) }
+func (m bzMeth) Self() bzMeth                       { return m }
+func (m *bzMeth) PSelf() *bzMeth                    { return m }
+func (m bzMeth) NilPtr() *bzMeth                    { return nil }
+func (m bzMeth) Fn() func(int) int                  { return func(a int) int { return a } }
+func (m bzMeth) TakesSelf(o bzMeth, p *bzMeth) int  { return o.C }
+func (m bzMeth) TakesFn(f func(int) int) int        { return f(1) }
+func (m bzMeth) TakesMap(x map[string][]int) int    { return len(x) }
+func (m bzMeth) TakesIface(x interface{}) string    { return fmt.Sprintf("%T", x) }
+func (m bzMeth) TakesValue(v otto.Value) otto.Value { return v }
+func (m bzMeth) Call(c otto.FunctionCall) otto.Value {
+	return c.Argument(0)
+}
+
+type bzSlMeth []int
+
+func (s bzSlMeth) Sum() int    { return len(s) }
+func (s *bzSlMeth) Grow(n int) { *s = append(*s, n) }
+
+type bzMpMeth map[string]int
+
+func (m bzMpMeth) Len() int { return len(m) }
+
+type bzArrMeth [2]int
+
+func (a bzArrMeth) First() int { return a[0] }
+
 func (s bzStringer) String() string { return fmt.Sprint("S", s.n) }
 
 var bridgeZoo = []struct {
@@ -97,7 +200,14 @@ var bridgeZoo = []struct {
 	{"func-map-defined-int-key", func() interface{} { return func(m map[bzK]string) int { return len(m) } }},
 	{"func-map-int-key", func() interface{} { return func(m map[int]int) int { return len(m) } }},
 	{"func-struct-by-value", func() interface{} { return func(t bzT) int { return t.C } }},
-	{"func-struct-by-pointer", func() interface{} { return func(t *bzT) int { return t.C } }},
+	{"func-struct-by-pointer", func() interface{} {
+		return func(t *bzT) int {
+			if t == nil { // null and undefined arrive as the nil pointer
+				return -1
+			}
+			return t.C
+		}
+	}},
 	{"func-slice-of-defined", func() interface{} { return func(l []bzMyInt) int { return len(l) } }},
 	{"func-variadic-defined", func() interface{} { return func(l ...bzMyInt) int { return len(l) } }},
 	{"func-variadic-interface", func() interface{} { return func(a int, l ...interface{}) int { return a + len(l) } }},
@@ -155,9 +265,187 @@ var bridgeZoo = []struct {
 	{"uint64-max", func() interface{} { return ^uint64(0) }},
 	{"int64-min", func() interface{} { return int64(-1 << 63) }},
 	{"rune", func() interface{} { return 'x' }},
+	// --- second round: nested containers, methods of every shape, nil containers, cyclic data, odd parameter types
+	{"deep-struct", func() interface{} {
+		i := 5
+		t := &bzT{C: 1}
+		return &bzDeep{L1: map[string][]map[string]*bzT{"a": {{"x": nil, "y": {C: 1}}, nil}, "n": nil}, L2: [][][]int{{{1}, nil}, nil},
+			L3: map[string]map[string][]interface{}{"a": {"b": {1, "s", nil, []int{1}, map[string]int{"k": 1}, &bzT{}}}, "n": nil},
+			PA: &[2]bzT{{C: 1}}, Fn: func(a int) int { return a }, Ch: make(chan int), PI: &i, PP: &t, E: errors.New("e"), St: bzStringer{1}}
+	}},
+	{"deep-struct-zero", func() interface{} { return &bzDeep{} }},
+	{"deep-struct-by-value", func() interface{} { return bzDeep{L2: [][][]int{{{1}}}} }},
+	{"map-3-deep", func() interface{} {
+		return map[string]map[string]map[string]int{"C": {"C": {"C": 1}}, "a": {"a": nil}, "0": nil}
+	}},
+	{"slice-3-deep", func() interface{} { return [][][]int{{{1, 2}, nil}, nil, {}} }},
+	{"map-of-slices-of-maps", func() interface{} { return map[string][]map[string]interface{}{"a": {{"a": 1}, nil}, "S": nil} }},
+	{"slice-of-maps", func() interface{} { return []map[string]int{{"a": 1}, nil} }},
+	{"slice-of-map-int-key", func() interface{} { return []map[int][]string{{1: {"a"}}, nil} }},
+	{"array-of-arrays", func() interface{} { return [2][2]int{{1, 2}, {3, 4}} }},
+	{"array-of-arrays-by-pointer", func() interface{} { return &[2][2]int{{1, 2}, {3, 4}} }},
+	{"array-of-slices", func() interface{} { return &[2][]int{{1}, nil} }},
+	{"array-of-struct-pointers", func() interface{} { return &[2]*bzT{nil, {C: 1}} }},
+	{"map-array-value", func() interface{} { return map[string][2]int64{"a": {1, 2}} }},
+	{"map-slice-value", func() interface{} { return map[string][]int{"a": {1}, "S": nil} }},
+	{"map-pointer-to-int-value", func() interface{} { i := 1; return map[string]*int{"a": &i, "b": nil} }},
+	{"map-error-value", func() interface{} { return map[string]error{"a": errors.New("e"), "b": nil} }},
+	{"map-chan-value", func() interface{} { return map[string]chan int{"a": make(chan int), "b": nil} }},
+	{"map-value-value", func() interface{} { return map[string]otto.Value{"a": otto.NullValue(), "b": {}} }},
+	{"map-pointer-key", func() interface{} { i := 1; return map[*int]int{&i: 1, nil: 2} }},
+	{"map-chan-key", func() interface{} { return map[chan int]int{make(chan int): 1} }},
+	{"map-complex-key", func() interface{} { return map[complex128]int{1: 1} }},
+	{"map-stringer-key", func() interface{} { return map[fmt.Stringer]int{bzStringer{1}: 1} }},
+	{"map-int8-key", func() interface{} { return map[int8]int{-1: 1, 1: 2} }},
+	{"map-uint64-key", func() interface{} { return map[uint64]string{^uint64(0): "max", 0: "z"} }},
+	{"map-float32-key", func() interface{} { return map[float32]int{1.5: 1, 0.1: 2} }},
+	{"map-rune-key", func() interface{} { return map[rune]int{'a': 1} }},
+	{"nil-map", func() interface{} { return map[string]int(nil) }},
+	{"nil-map-int-key", func() interface{} { return map[int]int(nil) }},
+	{"nil-slice", func() interface{} { return []int(nil) }},
+	{"nil-slice-of-structs", func() interface{} { return []bzT(nil) }},
+	{"nil-func", func() interface{} { return (func(int) int)(nil) }},
+	{"nil-struct-pointer", func() interface{} { return (*bzT)(nil) }},
+	{"nil-array-pointer", func() interface{} { return (*[2]int)(nil) }},
+	{"nil-error", func() interface{} { return error(nil) }},
+	{"nil-pointer-to-slice", func() interface{} { return (*[]int)(nil) }},
+	{"self-referential", func() interface{} {
+		s := &bzSelf{Name: "s"}
+		s.Self = s
+		s.Kids = []*bzSelf{s, nil}
+		s.M = map[string]*bzSelf{"a": s}
+		s.I = s
+		return s
+	}},
+	{"self-containing-slice", func() interface{} { s := []interface{}{1, nil}; s[1] = s; return s }},
+	{"self-containing-map", func() interface{} { m := map[string]interface{}{"a": 1}; m["C"] = m; return m }},
+	{"json-marshaler-fails", func() interface{} { return &bzJSON{1} }},
+	{"json-marshaler-bad-output", func() interface{} { return bzJSONBad{1} }},
+	{"slice-of-json-marshalers", func() interface{} { return []interface{}{bzJSON{1}, &bzJSONBad{1}} }},
+	{"embedded-nil-interfaces", func() interface{} { return &bzEmbIface{X: 1} }},
+	{"embedded-interface", func() interface{} { return &bzEmbIface{bzIface: &bzImpl{1}, Stringer: bzStringer{1}} }},
+	{"methods-by-value", func() interface{} { return bzMeth{C: 1} }},
+	{"methods-by-pointer", func() interface{} { return &bzMeth{C: 1} }},
+	{"slice-with-methods", func() interface{} { return bzSlMeth{1, 2} }},
+	{"slice-with-methods-by-pointer", func() interface{} { return &bzSlMeth{1, 2} }},
+	{"map-with-methods", func() interface{} { return bzMpMeth{"a": 1} }},
+	{"array-with-methods", func() interface{} { return bzArrMeth{1, 2} }},
+	{"array-with-methods-by-pointer", func() interface{} { return &bzArrMeth{1, 2} }},
+	{"time", func() interface{} { return time.Unix(0, 0) }},
+	{"time-by-pointer", func() interface{} { t := time.Unix(0, 0); return &t }},
+	{"duration", func() interface{} { return time.Second }},
+	{"raw-message", func() interface{} { return json.RawMessage(`{"a":1}`) }},
+	{"otto-value", func() interface{} { return otto.TrueValue() }},
+	{"otto-value-zero", func() interface{} { return otto.Value{} }},
+	{"otto-value-pointer", func() interface{} { v := otto.NullValue(); return &v }},
+	{"native-function", func() interface{} { return func(c otto.FunctionCall) otto.Value { return c.Argument(5) } }},
+	{"native-function-uses-this", func() interface{} {
+		return func(c otto.FunctionCall) otto.Value {
+			c.This.Object()
+			c.Otto.Run("1")
+			v, _ := c.This.Export()
+			_ = v
+			return c.This
+		}
+	}},
+	{"unsafe-pointer", func() interface{} { i := 1; return unsafe.Pointer(&i) }},
+	{"func-text-unmarshaler-param", func() interface{} { return func(t bzText) string { return t.s } }},
+	{"func-text-unmarshaler-pointer-param", func() interface{} {
+		return func(t *bzText) string {
+			if t == nil {
+				return ""
+			}
+			return t.s
+		}
+	}},
+	{"func-raw-message-param", func() interface{} { return func(r json.RawMessage) int { return len(r) } }},
+	{"func-time-param", func() interface{} { return func(t time.Time, d time.Duration) bool { return t.IsZero() } }},
+	{"func-iface-method-param", func() interface{} { return func(i bzIface) bool { return i == nil } }},
+	{"func-nested-param", func() interface{} {
+		return func(m map[string][]map[string]*bzT, l [][][]int) int { return len(m) + len(l) }
+	}},
+	{"func-deep-struct-param", func() interface{} { return func(d bzDeep, p *bzDeep) int { return len(d.L1) } }},
+	{"func-self-param", func() interface{} { return func(s bzSelf) string { return s.Name } }},
+	{"func-variadic-struct", func() interface{} { return func(l ...bzT) int { return len(l) } }},
+	{"func-variadic-pointer", func() interface{} { return func(l ...*bzT) int { return len(l) } }},
+	{"func-variadic-only-values", func() interface{} { return func(l ...otto.Value) int { return len(l) } }},
+	{"func-variadic-slices", func() interface{} { return func(a string, l ...[]int) int { return len(l) } }},
+	{"func-map-interface-key-param", func() interface{} { return func(m map[interface{}]interface{}) int { return len(m) } }},
+	{"func-map-struct-value-param", func() interface{} { return func(m map[string]bzT) int { return len(m) } }},
+	{"func-slice-of-pointers-param", func() interface{} { return func(l []*bzT) int { return len(l) } }},
+	{"func-slice-of-funcs-param", func() interface{} {
+		return func(l []func(int) int) int {
+			n := 0
+			for _, f := range l {
+				if f != nil {
+					n += f(1)
+				}
+			}
+			return n
+		}
+	}},
+	{"func-func-with-results-param", func() interface{} {
+		return func(f func(int, string) string, g func() (int, error)) string {
+			if f == nil {
+				return ""
+			}
+			return f(1, "a")
+		}
+	}},
+	{"func-func-returning-struct-param", func() interface{} {
+		return func(f func(bzT) bzT, g func(*bzT) []int, k func() map[string]int) int {
+			if f == nil || g == nil || k == nil {
+				return -1
+			}
+			return f(bzT{}).C + len(g(nil)) + len(k())
+		}
+	}},
+	{"func-uintptr-complex-param", func() interface{} { return func(u uintptr, c complex64) bool { return u == 0 } }},
+	{"func-unsafe-pointer-param", func() interface{} { return func(u unsafe.Pointer) bool { return u == nil } }},
+	{"func-function-call-and-more", func() interface{} { return func(c otto.FunctionCall, n int) int { return n } }},
+	{"func-returns-func", func() interface{} { return func() func(bzMyInt) []int { return func(bzMyInt) []int { return nil } } }},
+	{"func-returns-chan", func() interface{} { return func() chan int { return make(chan int) } }},
+	{"func-returns-nil-everything", func() interface{} {
+		return func() (map[string]int, []int, func(), *int, error, interface{}, chan int) {
+			return nil, nil, nil, nil, nil, nil, nil
+		}
+	}},
+	{"func-returns-nested", func() interface{} {
+		return func() (map[string][]*bzT, [][2]int) { return map[string][]*bzT{"a": {nil}}, [][2]int{{1, 2}} }
+	}},
+	{"func-returns-complex", func() interface{} { return func() complex128 { return 1 } }},
+	{"func-returns-unsafe-pointer", func() interface{} { return func() unsafe.Pointer { return nil } }},
+	{"func-returns-struct-with-chan", func() interface{} { return func() *bzDeep { return &bzDeep{Ch: make(chan int)} } }},
+	{"func-returns-value-zero", func() interface{} { return func() otto.Value { return otto.Value{} } }},
+	{"func-returns-object-nil", func() interface{} { return func() *otto.Object { return nil } }},
+	{"slice-of-funcs", func() interface{} { return []func(int) int{nil, func(a int) int { return a }} }},
+	{"slice-of-chans", func() interface{} { return []chan int{nil, make(chan int)} }},
+	{"slice-of-complex", func() interface{} { return []complex128{1} }},
+	{"slice-of-values", func() interface{} { return []otto.Value{otto.NullValue(), {}} }},
+	{"slice-of-pointers-to-int", func() interface{} { i := 1; return []*int{&i, nil} }},
+	{"slice-of-arrays", func() interface{} { return [][2]int64{{1, 2}} }},
+	{"slice-of-array-pointers", func() interface{} { return []*[2]int{nil, {1, 2}} }},
+	{"slice-of-int8", func() interface{} { return []int8{-1, 1} }},
+	{"slice-of-uint64", func() interface{} { return []uint64{^uint64(0)} }},
+	{"slice-of-time", func() interface{} { return []time.Time{time.Unix(0, 0)} }},
+	{"slice-of-stringers", func() interface{} { return []fmt.Stringer{nil, bzStringer{1}} }},
+	{"slice-of-defined-structs-pointers", func() interface{} { return []*bzMeth{{C: 1}, nil} }},
+	{"slice-of-empty-structs", func() interface{} { return []struct{}{{}, {}} }},
+	{"pointer-to-struct-pointer", func() interface{} { t := &bzT{C: 1}; return &t }},
+	{"pointer-to-interface", func() interface{} { var i interface{} = 1; return &i }},
+	{"pointer-to-func", func() interface{} { f := func(a int) int { return a }; return &f }},
+	{"pointer-to-array-of-structs", func() interface{} { return &[1]bzT{{C: 1}} }},
+	{"interface-holding-nil-pointer", func() interface{} { var p *bzT; var i interface{} = p; return &i }},
 }
 
-var bridgeNames = []string{"C", "S", "M", "I", "P", "A", "F", "U", "hid", "ren", "Ren", "Dash", "Exp", "Emb", "bzIn", "hidden", "b", "a", "0", "1", "2", "16", "0x10", "1_6", "-1", "1.5", "true", "1,2", "{a}", "length", "x", "Val", "Ptr", "Two", "None", "String", "Error", "constructor", "__proto__", ""}
+// names every value is asked for (fields and methods of the first zoo members, numeric and odd spellings)
+var bridgeNames = []string{"C", "S", "M", "I", "P", "A", "F", "U", "hid", "ren", "Ren", "Dash", "Exp", "Emb", "bzIn", "hidden", "b", "a", "0", "1", "2", "16", "0x10", "1_6", "-1", "1.5", "true", "1,2", "{a}", "length", "x", "Val", "Ptr", "Two", "None", "String", "Error", "constructor", "__proto__", "",
+	// names asked only of the values that have them (`N in V` at generation time): the second round's fields and methods
+	"L1", "L2", "L3", "PA", "Fn", "Ch", "NM", "NS", "PI", "PP", "E", "St", "T", "D", "Cx", "R", "V", "O", "un", "Name", "Self", "Kids", "X", "N",
+	"Three", "Variadic", "PSelf", "NilPtr", "TakesSelf", "TakesFn", "TakesMap", "TakesIface", "TakesValue", "Call", "Sum", "Grow", "Len", "First",
+	"MarshalJSON", "UnmarshalText", "Unix", "Add", "Seconds", "n", "k", "y", "max", "z", "-1", "97", "0.1", "18446744073709551615", "S1", "s"}
+
+const bridgeGenericNames = 40
 
 // operations on one property name N of the bridged value V
 var bridgeNameOps = []string{
@@ -168,10 +456,26 @@ var bridgeNameOps = []string{
 	`Object.defineProperty(V, N, {writable: false})`, `V[N](1)`, `V[N]()`, `V[N](V)`, `V[N]("a", {}, [])`, `new V[N]`, `V[N].call(null, 1)`, `V[N].call(1, 1)`,
 	`V[N].apply(V, [1, 2, 3])`, `V[N][N]`, `V[N][N] = 1`, `V[N].length = 0`, `V[N].length = 10`, `V[N].push(1)`, `V[N].push(1.5)`, `V[N][0] = "s"`, `V[N].a = "s"`,
 	`V[N].x = 1`, `delete V[N][0]`, `V[N].C = 1`, `Object.keys(V[N])`, `JSON.stringify(V[N])`, `V[N] + ""`, `V[N]++`, `V[N] += "s"`,
+	// second round
+	`Object.defineProperty(V, N, {writable: true, enumerable: true, configurable: true})`, `Object.defineProperty(V, N, {set: function(v){}, enumerable: true, configurable: true})`,
+	`Object.defineProperty(V, N, {value: V, writable: true, enumerable: true, configurable: true})`, `Object.defineProperty(V, N, {})`, `Object.defineProperty(V, N, {enumerable: false})`,
+	`Object.defineProperties(V, (function(){ var d = {}; d[N] = {value: "s"}; return d })())`,
+	`Object.create(V)[N]`, `Object.create(V)[N] = 1`, `Object.create(V)[N]()`, `Object.create(V)[N](1, 2)`, `delete Object.create(V)[N]`, `var o = Object.create(V); o[N] = V[N]; o[N]`,
+	`Object.create(V[N])[N]`, `Object.create(Object.create(V))[N] = "s"`, `V[N][0][0]`, `V[N][0][0] = 1`, `V[N][0][0] = null`, `V[N][0].a = 1`, `V[N].a[0] = 1`, `V[N].a.b = 1`, `V[N].a.b[0] = V`,
+	`V[N][0] = V[N][1]`, `V[N][1] = V[N][0]`, `V[N][0] = V[N]`, `V[N][N] = V[N]`, `V[N].a = V[N].b`, `V[N].a = null`, `V[N].zz = {}`, `V[N][0] = {C: 1}`, `V[N][0] = [1]`, `V[N][0] = [[1]]`,
+	`V[N].reverse()`, `V[N].sort()`, `V[N].splice(0, 1, V[N][0], null)`, `V[N].unshift(V[N][0])`, `V[N].concat(V[N], V)`, `V[N].length = 1e100`, `V[N].length = NaN`,
+	`for (var k in V[N]) V[N][k] = V[N][k]`, `for (var k in V[N]) delete V[N][k]`, `String(V[N])`, `V[N] == V[N]`, `V[N] === V[N]`, `V[N] < 1`, `-V[N]`, `V[N] | 0`, `[V[N]].join()`, `[].concat(V[N])`,
+	`V[N](null)`, `V[N](undefined, undefined)`, `V[N](null, null, null)`, `V[N]({}, {}, {})`, `V[N]([], [], [])`, `V[N](1, "a", [1], {a: 1})`, `V[N](V[N])`, `V[N](V, V)`, `V[N]({C: 1}, {C: 1})`,
+	`V[N](function(){ return 1 })`, `V[N](function(){ return "s" })`, `V[N](function(){ throw new Error("cb") })`, `V[N](function(){ return {} })`, `V[N]({a: [1, 2]})`, `V[N]({a: "s"})`, `V[N](1.5)`, `V[N](1e100, "a")`,
+	`V[N].bind(V)(1)`, `V[N].bind(null, 1, 2, 3)()`, `V[N].apply(null, V)`, `V[N].apply(V[N], {length: 3})`, `new (V[N].bind(null))`, `V[N].length`, `V[N].name`, `V[N].toString()`, `V[N].prototype`,
+	`var f = V[N]; f(1)`, `var f = V[N]; V = null; f(1)`, `[1, 2].map(V[N])`, `[1, 2].forEach(V[N])`, `[3, 1].sort(V[N])`, `"ab".replace(/a/, V[N])`, `JSON.stringify({a: 1}, V[N])`, `JSON.parse("[1]", V[N])`,
+	`Object.freeze(V[N])`, `Object.keys(Object(V[N]))`, `Object.getOwnPropertyNames(Object(V[N]))`, `V[N] instanceof Object`, `V[N].constructor`, `V[N].hasOwnProperty(N)`, `N in Object(V[N])`,
+	`with (V) { eval(N) }`, `with (V) { eval(N + " = 1") }`, `with (V) { typeof eval(N) }`,
 }
 
-// operations on the bridged value V as a whole (lengths stay small: `V.length = 4294967296` on a
-// bridged slice is a 32 GiB allocation request, memory exhaustion rather than a panic)
+// operations on the bridged value V as a whole.  A valid but huge length (`V.length = 4294967295` on a bridged
+// []int is a 32 GiB allocation request) is memory exhaustion rather than a panic and is not in the list; the
+// invalid lengths 4294967296 / 1e100 / NaN must be RangeErrors (they were allocation panics before 9ca504e).
 var bridgeWholeOps = []string{
 	`V`, `typeof V`, `V + ""`, `V + 1`, `String(V)`, `Number(V)`, `V == V`, `V < V`, `JSON.stringify(V)`, `JSON.stringify([V, {v: V}])`, `Object.keys(V)`,
 	`Object.getOwnPropertyNames(V)`, `for (var k in V) V[k]`, `for (var k in V) V[k] = V[k]`, `for (var k in V) delete V[k]`, `Object.freeze(V)`, `Object.seal(V)`,
@@ -187,20 +491,202 @@ var bridgeWholeOps = []string{
 	`V(5, 5)`, `V(5, "x")`, `V(1, 2, 3, 4)`, `V(true, 1.5)`, `V("a", "b")`, `V({valueOf: function(){ throw 1 }})`, `V({toString: function(){ return {} }})`,
 	`V.call(null, 5)`, `V.apply(null, [5])`, `V.apply(null, {length: 2})`, `V.bind(null, 5)()`, `new V(5)`, `new V`, `V.length`, `V.name`, `V.prototype`,
 	`V.toString()`, `V.valueOf()`, `V.constructor`, `V instanceof Object`, `Object.prototype.toString.call(V)`, `Array.isArray(V)`,
+	// second round
+	`V.length = 4294967296`, `V.length = 1e100`, `V.length = NaN`, `V.length = Infinity`, `V.length = {valueOf: function(){ throw 1 }}`, `V.length = "x"`, `V.length = undefined`,
+	`Object.defineProperty(V, "length", {value: 1e100})`, `Object.defineProperty(V, "length", {get: function(){ return 1 }})`, `Object.defineProperty(V, "length", {writable: false})`,
+	`Array.prototype.push.call(V, V)`, `Array.prototype.splice.call(V, 0, 1, V, null, {})`, `Array.prototype.unshift.call(V, null)`, `Array.prototype.reverse.call(V)`, `Array.prototype.sort.call(V, function(){ return -1 })`,
+	`V.sort(function(){ throw 1 })`, `V.sort(function(){ return NaN })`, `V.map(function(){ return V })`, `V.filter(function(){ return true })`, `V.reduce(function(a, b){ return a })`, `V.lastIndexOf(V)`,
+	`V.splice(0, 0, V)`, `V.splice(1, 5)`, `V.unshift(null, undefined)`, `V.unshift(V)`, `V.concat([V, [V]])`, `V.fill && 0`, `V.push(V[0])`, `V.push(V[0], V[1], null)`, `V.push([1])`, `V.push([[1]])`, `V.push({a: 1})`, `V.push({C: 1})`,
+	`V[0] = V[1]`, `V[1] = V[0]`, `V[0] = V`, `V[0] = null`, `V[0] = undefined`, `V[0] = {}`, `V[0] = {a: 1}`, `V[0] = {C: 1, P: {C: 2}}`, `V[0] = [1]`, `V[0] = [[1]]`, `V[0] = [null]`, `V[0] = "s"`, `V[0] = 1.5`, `V[0] = -1`, `V[0] = 1e100`, `V[0] = true`,
+	`V[0] = function(){ return 1 }`, `V[0] = new Date(0)`, `V[0] = /x/`, `V[0] = String.fromCharCode(0xD800)`, `V[0] = new String("ab")`, `V[0] = [1, 2, 3]`, `V[0] = [1]; V[0]`, `V[V.length] = V[0]`, `V[V.length] = null`, `delete V[0]`, `delete V.length`,
+	`V[0][0] = 1`, `V[0][0][0] = 1`, `V[0][0] = V[0][0]`, `V[0][0] = null`, `V[0][0] = [1]`, `V[0].a = 1`, `V[0].a = null`, `V[0].C = 1`, `V[0].C = "s"`, `V[0].push(1)`, `V[0].push(null)`, `V[0].push([1])`, `V[0].length = 0`, `V[0].length = 5`,
+	`V.a.a.a = 1`, `V.a.a.zz = 1`, `V.a.zz = {}`, `V.a.a = null`, `V.a.a = {a: 1}`, `V.a.a = {a: "s"}`, `V.a = {a: {a: 1}}`, `V.zz = {a: {a: 1}}`, `V.a[0].a = 1`, `V.a[0] = {a: 1}`, `V.a[0] = null`, `V.a.push({a: 1})`, `V.a.push(null)`, `V.a = [{a: 1}]`, `V.a = [null]`, `V.a = V.a`, `V.b = V.a`,
+	`V(V, V)`, `V(V, null)`, `V(null, null)`, `V(undefined, undefined, undefined)`, `V({}, {})`, `V([], [])`, `V("", "")`, `V("a", 1)`, `V("a", [1], [2])`, `V("a", [1, 2])`, `V("a", "b", "c")`, `V("2000-01-01T00:00:00Z", 1)`, `V("x", "y")`,
+	`V({A: 1}, {A: 1})`, `V({s: "a"})`, `V({L1: {a: [{x: {C: 1}}, null]}, L2: [[[1]]], L3: {a: {b: [1, "s", null]}}}, null)`, `V({A: [[1, 2], [3, 4]]})`, `V({A: [[1]]})`, `V({PA: [{C: 1}, {C: 2}]})`, `V({Fn: function(a){ return a }})`, `V({Fn: 1})`,
+	`V({Ch: 1})`, `V({PI: 1, PP: {C: 1}})`, `V({E: "e"})`, `V({E: {}})`, `V({St: {}})`, `V({T: "2000-01-01T00:00:00Z", D: 1})`, `V({Cx: 1})`, `V({R: {a: 1}})`, `V({V: 1, O: {}})`, `V({U: 1})`, `V({un: 1})`, `V({NM: {a: 1}, NS: ["a"]})`, `V({NM: null, NS: null})`,
+	`V({Name: "s", Self: {Name: "t", Self: null}, Kids: [{Name: "k"}, null], M: {a: {Name: "m"}}, I: {a: 1}})`, `var o = {Name: "c"}; o.Self = o; V(o)`, `var a = []; a[0] = a; V(a)`, `var o = {}; o.a = o; V(o)`,
+	`V([{C: 1}], [{C: 1}])`, `V([null], [undefined])`, `V([{C: 1}, null, undefined])`, `V({a: [{a: null}]}, [[[1]]])`, `V({a: [{x: null, y: {C: 1}}]}, [[[1, 2], []], []])`, `V([function(){ return 1 }, null])`, `V([function(){ throw 1 }])`, `V([1, function(){}])`,
+	`V([[1, 2]])`, `V([[1, 2], [3]])`, `V([1, [2]])`, `V({a: {C: 1}})`, `V({a: null})`, `V({a: 1, b: "s"})`, `V({1: 1, x: 2})`, `V({1.5: 1})`, `V(Object.create({a: 1}))`, `V(Object.create(null))`, `V({get a(){ throw 1 }})`, `V({get C(){ return 1 }})`,
+	`V({toString: function(){ return this }})`, `V("a", {toString: function(){ return this }})`, `var o = {toString: function(){ return p }}, p = {toString: function(){ return o }}; V(o)`,
+	`var o = {}; o.P = o; V(o)`, `var o = {C: 1}; o.P = {P: o}; V(o, o)`, `var o = {}; o.PP = {P: o}; V(o, o)`, `var o = {}; o.I = o; V(o)`, `var a = [1]; a[1] = a; V(a)`, `var o = {}; o.a = [o]; V(o)`,
+	`V(function(a, b){ return "s" }, function(){ return 1 })`, `V(function(){ return 1 }, function(){ return 1 }, function(){ return 1 })`, `V(function(t){ return t }, function(p){ return [1] }, function(){ return {a: 1} })`,
+	`V(function(t){ return {C: 1} }, function(p){ return [1.5] }, function(){ return {a: "s"} })`, `V(function(){ return null }, function(){ return null }, function(){ return null })`, `V(function(){ throw 1 }, function(){ throw 1 }, function(){ throw 1 })`,
+	`V(function(){ return V }, function(){ return V })`, `V(V, function(){ return 1 })`, `V(Math.abs, Math.max)`, `V(Object, Array, Function)`, `V(eval, eval)`, `V(V.bind(null), V.bind(null))`,
+	`V.apply(null, V)`, `V.apply(V, [V, V, V])`, `V.call(V, V)`, `V.bind(V, V, V)()`, `new (V.bind(null, 1))`, `[1, 2].map(V)`, `[1, 2].forEach(V)`, `[3, 1].sort(V)`, `"ab".replace(/a/, V)`, `"ab".replace(/a/g, V)`, `JSON.stringify({a: 1}, V)`, `JSON.stringify(V, V)`,
+	`JSON.stringify(V, null, V)`, `JSON.stringify(V, [V])`, `JSON.stringify({a: V, b: [V]})`, `JSON.stringify(V, function(k, v){ return v })`, `JSON.parse("[1, {\"a\": 2}]", V)`, `JSON.stringify(Object.create(V))`,
+	`V.toJSON = function(){ return 1 }; JSON.stringify(V)`, `V.toString = function(){ return "s" }; V + ""`, `V.valueOf = function(){ throw 1 }; V + 1`, `V.zz = function(){ return this }; V.zz()`, `V.zz = V; V.zz.zz`,
+	`with (V) { C = 1; typeof S; typeof a; length }`, `with (V) { var C = 2; function S(){}; }`, `with (Object.create(V)) { C = 1 }`, `(function(){ return this }).call(V)`, `(function(){ "use strict"; return this }).call(V)`,
+	`Function.prototype.call.call(V, V, V)`, `Function.prototype.apply.call(V, V, V)`, `Function.prototype.bind.call(V, V)()`, `Function.prototype.toString.call(V)`, `new (Function.prototype.bind.call(V, null))`,
+	`V instanceof V`, `({}) instanceof V`, `V in V`, `"a" in V`, `0 in V`, `V[V]`, `V[V] = V`, `delete V[V]`, `({})[V]`, `var o = {}; o[V] = 1`, `[V].sort()`, `[V, V].join()`, `[V, null, V].indexOf(V)`, `new Array(V)`, `Array(V, V)`, `new Object(V)`, `Object(V) === V`,
+	`new Number(V)`, `new String(V)`, `new Boolean(V)`, `new Date(V)`, `new RegExp(V)`, `new Error(V)`, `new Function(V)`, `Function("a", V)`, `eval(V)`, `parseInt(V)`, `parseFloat(V)`, `isNaN(V)`, `encodeURIComponent(V)`, `escape(V)`,
+	`Math.max(V, V)`, `Math.abs(V)`, `String.fromCharCode(V)`, `"abc".indexOf(V)`, `"abc".charAt(V)`, `"abc".split(V)`, `"abc".slice(V, V)`, `"abc".substr(V)`, `"abc".concat(V)`, `"abc".localeCompare(V)`, `"abc".match(V)`, `"abc".search(V)`,
+	`(1).toFixed(V)`, `(1).toString(V)`, `(1).toPrecision(V)`, `[1, 2].slice(V)`, `[1, 2].splice(V, V)`, `[1, 2].join(V)`, `[1, 2].indexOf(V, V)`, `[1, 2].concat(V, [V])`, `new Date(2000, V)`, `Date.UTC(V, V)`, `new Date(0).setHours(V)`,
+	`Object.keys(V).length`, `Object.create(V, {zz: {value: 1}})`, `Object.create(Object.prototype, V)`, `Object.defineProperties({}, V)`, `Object.defineProperty({}, "a", V)`, `Object.defineProperty({}, V, {value: 1})`, `Object.getOwnPropertyDescriptor(V, V)`,
+	`Object.isExtensible(V)`, `Object.isSealed(V)`, `Object.seal(V); V.C = 2; V[0] = 2; delete V.C`, `Object.freeze(V); V.C = 2; V[0] = 2; V.length = 0; V.push && V.push(1)`, `Object.preventExtensions(V); V[V.length || 0] = 1`,
+	`V.__proto__ = null; V + ""`, `V.__proto__ = V`, `V.constructor = V; new V.constructor`, `Object.getPrototypeOf(V).zz = 1; V.zz`, `V.hasOwnProperty(V)`, `V.isPrototypeOf(V)`, `V.propertyIsEnumerable(0)`,
+	`try { throw V } catch (e) { e === V }`, `throw V`, `(function(){ return arguments })(V, V)[0]`, `(function(a){ a = 1; return arguments[0] })(V)`, `typeof (0, V)`, `void V`, `!V`, `+V`, `-V`, `~V`, `V++`, `V--`, `V += V`, `V * V`, `V & V`, `V >>> V`, `V && V`, `V ? 1 : 2`, `V, V`,
+	`switch (V) { case V: 1 }`, `for (var i in V) { delete V[i]; V[i + "x"] = 1 }`, `for (var i in V) { V.length = 0 }`, `for (var i in V) { V.push && V.push(1); if (V.length > 20) break }`, `V.forEach && V.forEach(function(){ V.length = 0 })`, `V.forEach && V.forEach(function(x, i){ V.push(x) })`,
+	`V.map && V.map(function(){ V.pop() })`, `V.sort && V.sort(function(a, b){ V.length = 0; return 1 })`, `V.sort && V.sort(function(a, b){ V.push(1); return -1 })`, `V.reduce && V.reduce(function(a){ V.shift(); return a }, 0)`,
 }
+
+// a second bridged value W (by zoo name) for the cross operations: W stored into V, passed to V, to V's methods
+var bridgeSecond = []string{"struct-by-value", "struct-by-pointer", "nil-embedded-pointer", "defined-int", "defined-string", "defined-func", "defined-slice", "defined-map",
+	"error-value", "map-defined-int-key", "map-int-key", "map-interface-key", "map-struct-key", "map-interface-value", "map-struct-value", "map-3-deep", "slice-of-nil-pointers",
+	"slice-of-slices", "slice-of-interface", "slice-of-structs", "slice-of-uint8", "slice-of-errors", "slice-of-float32", "array-of-defined", "array-by-pointer", "pointer-to-int",
+	"deep-struct", "methods-by-pointer", "methods-by-value", "self-referential", "self-containing-slice", "nil-map", "nil-slice", "nil-struct-pointer", "time", "duration", "otto-value",
+	"native-function", "func-variadic-interface", "func-returns-nil-everything", "slice-of-funcs", "slice-3-deep", "array-of-arrays", "json-marshaler-fails", "embedded-interface", "uint64-max"}
+
+var bridgeCrossOps = []string{
+	`V(W)`, `V(W, W)`, `V(W, W, W)`, `V(1, W)`, `V("a", W)`, `V([W])`, `V([W, W])`, `V({a: W})`, `V({C: W, S: W, M: W, I: W, P: W})`, `V([[W]])`, `V({a: [W]})`, `V(function(){ return W })`, `V(W, function(){ return W })`,
+	`V.call(W, W)`, `V.apply(W, [W])`, `V.apply(null, W)`, `V.bind(W, W)()`, `new V(W)`, `W(V)`, `W(V, V)`, `W([V])`, `W({a: V})`,
+	`V[0] = W`, `V[1] = W`, `V[V.length] = W`, `V.a = W`, `V.C = W`, `V.S = W`, `V.M = W`, `V.I = W`, `V.P = W`, `V.zz = W`, `V[W] = W`, `V[0] = [W]`, `V.a = [W]`, `V.a = {a: W}`, `V[0][0] = W`, `V.a.a = W`, `V.a[0] = W`,
+	`V.S[0] = W`, `V.S.push(W)`, `V.M.a = W`, `V.I = W; V.I`, `V.P = W; V.P.C`, `V.L1 = W`, `V.L1.a = W`, `V.L1.a[0] = W`, `V.L2[0] = W`, `V.L3.a.b[0] = W`, `V.PA[0] = W`, `V.Fn = W`, `V.E = W`, `V.St = W`, `V.T = W`, `V.V = W`, `V.O = W`, `V.PP = W`,
+	`V.push(W)`, `V.push(W, W)`, `V.unshift(W)`, `V.splice(0, 1, W)`, `V.concat(W)`, `W.concat(V)`, `V.indexOf(W)`, `V.fill && 0`, `Array.prototype.push.call(V, W)`, `[].concat(V, W)`,
+	`Object.defineProperty(V, 0, {value: W, writable: true, enumerable: true, configurable: true})`, `Object.defineProperty(V, "a", {value: W, writable: true, enumerable: true, configurable: true})`, `Object.defineProperty(V, "C", {value: W})`,
+	`V.Val(W)`, `V.Ptr(W)`, `V.Variadic(W)`, `V.Variadic(1, W, W)`, `V.TakesSelf(W, W)`, `V.TakesFn(W)`, `V.TakesMap(W)`, `V.TakesIface(W)`, `V.TakesValue(W)`, `V.Call(W)`, `V.Grow(W)`, `V.Add(W)`, `V.String(W)`,
+	`V == W`, `V === W`, `V < W`, `V + W`, `V in W`, `V instanceof W`, `W[V]`, `W[V] = V`, `JSON.stringify([V, W])`, `JSON.stringify(V, W)`, `JSON.stringify(V, null, W)`, `Object.create(V, W)`, `Object.create(W, {a: {value: V}})`,
+	`Object.defineProperties(V, W)`, `Object.defineProperty(V, "a", W)`, `with (V) { with (W) { C = S; a = length } }`, `for (var k in W) V[k] = W[k]`, `for (var k in V) W[k] = V[k]`, `[V, W].sort()`, `[V, W].join()`,
+	`V.__proto__ = W; V.C; V.a; V[0]; V + ""`, `W.__proto__ = V; W.C; W.length`, `Object.create(W).C = V`, `var o = Object.create(V); o.__proto__ = W; o.a`, `Function.prototype.call.call(V, W, W)`, `Function.prototype.apply.call(V, W, W)`,
+}
+
+// operations through the Go API on the bridged value (and on a property N of it)
+var bridgeGoOps = []string{"export", "string", "tointeger", "tofloat", "toboolean", "class", "marshal", "is", "keys", "keysbyparent", "get", "set1", "setstring", "setnil", "setself", "setvalue", "setmap", "setslice", "setfunc",
+	"call", "callself", "callname", "callthis", "tovalue", "callarg", "getname", "objectexpr", "copy", "valuecall", "objectvalue", "objectmarshal", "evalin", "setglobal-twice", "export-name", "call-export"}
+
+var bridgeGoNames = []string{"C", "a", "0", "length", "Val", "Two", "Self", "L1", "toString", "zz", ""}
+
+// Requests that run in a child process: a Go stack overflow is a fatal error that no recover() catches, it
+// would take the whole harness down with it.  On a tree without c1bc6cd / 9d882df / 550cd5d that is what
+// JSON.stringify of cyclic Go data, a replacer that wraps its value (JSON.stringify(x, Array) - `constructor`
+// of a bridged slice is Array) and a cyclic script object for a recursive Go parameter type end in.  All
+// whole-value and built-in requests are isolated, and every request of the values listed here.
+var bridgeIsolated = map[string]bool{"self-referential": true, "self-containing-slice": true, "self-containing-map": true,
+	"func-self-param": true, "func-deep-struct-param": true, "func-returns-nested": true, "deep-struct": true}
+
+func bridgeIsolate(vi int, what string) bool {
+	if bridgeIsolated[bridgeZoo[vi].name] || what == "-" || strings.HasPrefix(what, "fn") || strings.HasPrefix(what, "w") {
+		return true
+	}
+	var ni int
+	if _, err := fmt.Sscan(what, &ni); err == nil && ni >= 0 && ni < len(bridgeNames) {
+		return bridgeNames[ni] == "constructor" || bridgeNames[ni] == "Self" || bridgeNames[ni] == "Kids"
+	}
+	return false
+}
+
+// operations in which the PANIC is the zoo's own Go code, not otto: a method promoted from a nil embedded
+// interface is a nil dereference inside the Go method wrapper, exactly as `v.M()` is in Go
+func bridgeHostPanic(value, n, op string, r interface{}) bool {
+	return value == "embedded-nil-interfaces" && (n == "M" || n == "String" || strings.Contains(op, "V.String(") || strings.Contains(op, "V.M(")) &&
+		strings.Contains(fmt.Sprint(r), "nil pointer dereference")
+}
+
+func init() {
+	// child mode: one bridge request, result on stdout, progress lines so that the parent can name the
+	// operation during which the process died
+	if line := os.Getenv("VERIF_C02_BRIDGE_CHILD"); line != "" {
+		os.Unsetenv("VERIF_C02_BRIDGE_CHILD")
+		os.Unsetenv("VERIF_C02_PANICLOG")
+		debug.SetMaxStack(96 << 20)
+		bridgeProgress = func(op string) { fmt.Println("op " + strings.ReplaceAll(op, " ", "")) }
+		res := implBridgeHere(strings.Fields(line))
+		panicMu.Lock()
+		for k := range panicLog {
+			fmt.Println("note " + strings.ReplaceAll(k, "\n", " "))
+		}
+		panicMu.Unlock()
+		fmt.Println("result " + res)
+		os.Exit(0)
+	}
+}
+
+var bridgeProgress = func(string) {}
 
 func implBridge(f []string) string {
 	if len(f) != 3 {
 		return "bad-op"
 	}
-	var vi, ni int
+	var vi int
 	fmt.Sscan(f[1], &vi)
 	if vi < 0 || vi >= len(bridgeZoo) {
 		return "bad-op"
 	}
+	if !bridgeIsolate(vi, f[2]) {
+		return implBridgeHere(f)
+	}
+	// The image this process runs, not the path it was started from: ./check of another worktree may have
+	// rebuilt bin/ottoh-C02-alt in the meantime, and the child has to be linked against the same otto.
+	exe := "/proc/self/exe"
+	if _, err := os.Stat(exe); err != nil {
+		if exe, err = os.Executable(); err != nil {
+			return "no-child"
+		}
+	}
+	ctx, cancel := context.WithTimeout(context.Background(), 120*time.Second)
+	defer cancel()
+	cmd := exec.CommandContext(ctx, exe)
+	cmd.Env = append(os.Environ(), "VERIF_C02_BRIDGE_CHILD="+strings.Join(f, " "))
+	out, _ := cmd.Output() // stderr (a Go fatal trace) is dropped
+	last, res := "-", ""
+	for _, l := range strings.Split(string(out), "\n") {
+		switch {
+		case strings.HasPrefix(l, "op "):
+			last = l[3:]
+		case strings.HasPrefix(l, "note "):
+			notePanic(l[5:], "(in child)")
+		case strings.HasPrefix(l, "result "):
+			res = l[7:]
+		}
+	}
+	if res == "" {
+		notePanic("bridge "+bridgeZoo[vi].name+" "+last, "child process died (fatal error, no recover possible) or timed out")
+		return "host-process-died:" + last
+	}
+	return res
+}
+
+func implBridgeHere(f []string) string {
+	var vi, ni int
+	fmt.Sscan(f[1], &vi)
 	ops := bridgeWholeOps
 	n := ""
-	if f[2] != "-" {
+	run := bridgeOp
+	switch {
+	case f[2] == "-":
+	case strings.HasPrefix(f[2], "go"):
+		fmt.Sscan(f[2][2:], &ni)
+		if ni < 0 || ni >= len(bridgeGoNames) {
+			return "bad-op"
+		}
+		ops, n, run = bridgeGoOps, bridgeGoNames[ni], bridgeGoOp
+	case strings.HasPrefix(f[2], "w"):
+		// cross operations with a second bridged value W
+		fmt.Sscan(f[2][1:], &ni)
+		wi := -1
+		if ni >= 0 && ni < len(bridgeSecond) {
+			for i, z := range bridgeZoo {
+				if z.name == bridgeSecond[ni] {
+					wi = i
+				}
+			}
+		}
+		if wi < 0 {
+			return "bad-op"
+		}
+		ops, n = bridgeCrossOps, "W="+bridgeZoo[wi].name
+		run = func(vm *otto.Otto, vi int, n, op string) string {
+			return bridgeOpWith(vm, vi, n, op, func() { vm.Set("W", bridgeZoo[wi].mk()) })
+		}
+	case strings.HasPrefix(f[2], "fn"):
+		// every built-in with the bridged value as this value and as first / second argument, called and constructed
+		fmt.Sscan(f[2][2:], &ni)
+		fns := bridgeFns()
+		ops = nil
+		for i := ni; i < len(fns); i += bridgeFnStride {
+			fn := fns[i]
+			ops = append(ops, "("+fn+").call(V)", "("+fn+").call(V, V)", "("+fn+").call(null, V, V)", "("+fn+").call(V, 1, V)", "new ("+fn+")(V)", "("+fn+").call(Object.create(V), V)")
+		}
+	default:
 		fmt.Sscan(f[2], &ni)
 		if ni < 0 || ni >= len(bridgeNames) {
 			return "bad-op"
@@ -208,7 +694,8 @@ func implBridge(f []string) string {
 		ops = bridgeNameOps
 		n = bridgeNames[ni]
 	}
-	return guarded("bridge "+bridgeZoo[vi].name+" N="+n, func() string {
+	// (several hundred operations; on a tree where many of them panic each one costs a fresh runtime)
+	return guardedFor(90*time.Second, "bridge "+bridgeZoo[vi].name+" N="+n, func() string {
 		mk := func() *otto.Otto {
 			vm := otto.New()
 			vm.SetStackDepthLimit(200)
@@ -219,7 +706,8 @@ func implBridge(f []string) string {
 		vm := mk()
 		var bad []string
 		for _, op := range ops {
-			if r := bridgeOp(vm, vi, n, op); r != "" {
+			bridgeProgress(op)
+			if r := run(vm, vi, n, op); r != "" {
 				bad = append(bad, r+":"+strings.ReplaceAll(op, " ", ""))
 				vm = mk() // go on with a fresh runtime: every panicking operation is reported
 			}
@@ -234,11 +722,38 @@ func implBridge(f []string) string {
 	})
 }
 
+const bridgeFnStride = 8
+
+var bridgeFnsOnce sync.Once
+var bridgeFnList []string
+
+func bridgeFns() []string {
+	bridgeFnsOnce.Do(func() { bridgeFnList = discover() })
+	return bridgeFnList
+}
+
+// bridgeForeign: the text a script's catch sees for a foreign Go panic value (an error is a pointer to a struct,
+// tryCatchEvaluate converts it with toValue, which has no runtime at hand): "TypeError: invalid value (struct):
+// missing runtime: <message> (<Go type>)".  toValue raises the same text as a genuine script exception for a
+// zoo value it cannot bridge (a **struct field, a struct map key), so the zoo's own types are excluded.
+var bridgeOwnType = regexp.MustCompile(`\(\**main\.bz\w+\)$`)
+
+func bridgeForeign(msg string) bool {
+	return strings.Contains(msg, "invalid value") && strings.Contains(msg, "missing runtime") && !bridgeOwnType.MatchString(msg)
+}
+
 // bridgeOp runs one operation, inside try/catch and bare; "" when both returned to the caller.
 func bridgeOp(vm *otto.Otto, vi int, n, op string) (res string) {
+	return bridgeOpWith(vm, vi, n, op, func() {})
+}
+
+func bridgeOpWith(vm *otto.Otto, vi int, n, op string, more func()) (res string) {
 	defer func() {
 		if r := recover(); r != nil {
 			if _, halted := r.(haltT); halted {
+				return
+			}
+			if bridgeHostPanic(bridgeZoo[vi].name, n, op, r) {
 				return
 			}
 			notePanic("bridge "+bridgeZoo[vi].name+" N="+n+" "+op, r)
@@ -248,12 +763,15 @@ func bridgeOp(vm *otto.Otto, vi int, n, op string) (res string) {
 	stop := watchdogAfter(vm, 1500*time.Millisecond)
 	defer stop()
 	vm.Set("V", bridgeZoo[vi].mk())
-	if v, err := vm.Run(`try { ` + op + ` } catch (e) { String(e) }`); err == nil && strings.Contains(v.String(), "invalid value") && strings.Contains(v.String(), "missing runtime") {
+	more()
+	// (`; 0`: the value of the operation is not looked at - the string form of `new Array(1e9)` is gigabytes)
+	if v, err := vm.Run(`try { ` + op + `; 0 } catch (e) { String(e) }`); err == nil && v.IsString() && bridgeForeign(v.String()) {
 		// a Go panic caught by the script's try (see C18 trycatch_foreign): still a Go panic
 		notePanic("bridge "+bridgeZoo[vi].name+" N="+n+" "+op+" (inside try)", v.String())
 		return "gopanic-inside-try"
 	}
 	vm.Set("V", bridgeZoo[vi].mk())
+	more()
 	vm.Run(op)
 	if v, err := vm.Run("1+1"); err != nil || v.String() != "2" {
 		return "unusable-after"
@@ -261,11 +779,261 @@ func bridgeOp(vm *otto.Otto, vi int, n, op string) (res string) {
 	return ""
 }
 
+// bridgeGoOp: the bridged value handled through the Go API (Value / Object accessors, Call, Set, ToValue, Copy)
+func bridgeGoOp(vm *otto.Otto, vi int, n, op string) (res string) {
+	defer func() {
+		if r := recover(); r != nil {
+			if _, halted := r.(haltT); halted {
+				return
+			}
+			if bridgeHostPanic(bridgeZoo[vi].name, n, op, r) {
+				return
+			}
+			notePanic("bridge "+bridgeZoo[vi].name+" N="+n+" go:"+op, r)
+			res = "gopanic"
+		}
+	}()
+	stop := watchdogAfter(vm, 1500*time.Millisecond)
+	defer stop()
+	goV := bridgeZoo[vi].mk()
+	vm.Set("V", goV)
+	v, _ := vm.Get("V")
+	var o *otto.Object
+	if v.IsObject() {
+		o = v.Object()
+	}
+	switch op {
+	case "export":
+		v.Export()
+	case "string":
+		_ = v.String()
+		v.ToString()
+	case "tointeger":
+		v.ToInteger()
+	case "tofloat":
+		v.ToFloat()
+	case "toboolean":
+		v.ToBoolean()
+	case "class":
+		v.Class()
+	case "marshal":
+		v.MarshalJSON()
+		json.Marshal(v)
+		json.Marshal(map[string]interface{}{"v": v, "o": o})
+	case "is":
+		v.IsFunction()
+		v.IsNaN()
+		v.IsPrimitive()
+		v.IsString()
+		v.IsNumber()
+		v.IsBoolean()
+		v.IsNull()
+		v.IsUndefined()
+		v.IsDefined()
+	case "valuecall":
+		v.Call(v)
+		v.Call(otto.NullValue(), 1, "a", nil)
+		v.Call(v, goV, v, o)
+		v.Call(otto.UndefinedValue(), map[string]interface{}{"C": 1}, []interface{}{1}, func() {})
+	}
+	if o == nil {
+		// the remaining operations need an object
+		switch op {
+		case "tovalue":
+			vm.ToValue(goV)
+			otto.ToValue(goV)
+		case "callarg":
+			vm.Call(`(function(x){ return x })`, nil, goV)
+			vm.Call(`(function(x){ return x })`, goV, goV)
+		}
+		return ""
+	}
+	switch op {
+	case "keys":
+		o.Keys()
+	case "keysbyparent":
+		o.KeysByParent()
+	case "get", "getname":
+		if pv, err := o.Get(n); err == nil {
+			pv.Export()
+			pv.String()
+			pv.MarshalJSON()
+			if pv.IsObject() {
+				pv.Object().Keys()
+				pv.Object().Get(n)
+				pv.Object().Set(n, 1)
+				pv.Object().Set("0", goV)
+			}
+		}
+	case "set1":
+		o.Set(n, 1)
+		o.Set(n, 1.5)
+		o.Set(n, int8(-1))
+		o.Set(n, uint64(1<<63))
+		o.Set(n, true)
+	case "setstring":
+		o.Set(n, "s")
+		o.Set(n, []byte("s"))
+		o.Set(n, 'x')
+	case "setnil":
+		o.Set(n, nil)
+		o.Set(n, (*bzT)(nil))
+		o.Set(n, otto.Value{})
+		o.Set(n, otto.NullValue())
+		o.Set(n, (*otto.Object)(nil))
+	case "setself":
+		o.Set(n, goV)
+		o.Set(n, v)
+		o.Set(n, o)
+		o.Set(n, &goV)
+	case "setvalue":
+		if pv, err := o.Get(n); err == nil {
+			o.Set(n, pv)
+			o.Set("zz", pv)
+			o.Set("0", pv)
+		}
+	case "setmap":
+		o.Set(n, map[string]interface{}{"C": 1, "a": nil})
+		o.Set(n, map[string]int{"a": 1})
+		o.Set(n, map[int]int{1: 1})
+		o.Set(n, map[interface{}]interface{}{1: 1})
+		o.Set(n, bzT{C: 1})
+		o.Set(n, &bzT{C: 1})
+	case "setslice":
+		o.Set(n, []interface{}{1, "a", nil})
+		o.Set(n, []int{1})
+		o.Set(n, [2]int{1, 2})
+		o.Set(n, []*bzT{nil})
+		o.Set(n, [][]int{{1}})
+	case "setfunc":
+		o.Set(n, func() {})
+		o.Set(n, func(c otto.FunctionCall) otto.Value { return c.This })
+		o.Set(n, (func())(nil))
+		o.Set(n, make(chan int))
+		o.Set(n, complex(1, 1))
+		o.Set(n, errors.New("e"))
+	case "call":
+		o.Call(n)
+		o.Call(n, 1)
+		o.Call(n, 1, "a", nil, 2.5)
+	case "callself":
+		o.Call(n, goV)
+		o.Call(n, v, o)
+		o.Call(n, goV, goV, goV)
+	case "callname":
+		o.Call("toString")
+		o.Call("valueOf")
+		o.Call("hasOwnProperty", n)
+		o.Call("push", goV)
+		o.Call("join")
+	case "callthis":
+		vm.Call(`(function(){ return this })`, goV)
+		vm.Call(`(function(){ return this[N] })`, v)
+		vm.Call(`Object.keys`, nil, goV)
+		vm.Call(`JSON.stringify`, nil, goV)
+	case "tovalue":
+		if tv, err := vm.ToValue(goV); err == nil {
+			tv.Export()
+			tv.String()
+		}
+		if !strings.HasPrefix(bridgeZoo[vi].name, "self-containing") {
+			// (the package-level ToValue rejects a slice or map with an error text that prints it with %v, and fmt
+			// itself overflows the stack on a []interface{} that holds itself, as fmt.Sprint(v) would in the embedder)
+			otto.ToValue(goV)
+		}
+	case "callarg":
+		vm.Call(`(function(x){ return x })`, nil, goV)
+		vm.Call(`(function(x, y){ x[N] = y; return x[N] })`, nil, goV, goV)
+		vm.Call(`(function(x){ return x[N](x) })`, nil, goV)
+	case "objectexpr":
+		vm.Object(`V`)
+		vm.Object(`V[N]`)
+		vm.Object(`(V)`)
+	case "copy":
+		c := vm.Copy()
+		c.Run(`V[N]; V[N] = 1; Object.keys(V); JSON.stringify(V)`)
+		c.Run(`V(1)`)
+		if cv, err := c.Get("V"); err == nil {
+			cv.Export()
+			cv.String()
+			if cv.IsObject() {
+				cv.Object().Keys()
+				cv.Object().Set(n, 1)
+				cv.Object().Get(n)
+			}
+		}
+		vm.Run(`V[N]; V[N] = 1`)
+	case "objectvalue":
+		o.Value().Export()
+		o.Class()
+	case "objectmarshal":
+		o.MarshalJSON()
+	case "evalin":
+		vm.Eval(`V[N]`)
+		vm.Eval(`V[N] = V`)
+	case "setglobal-twice":
+		vm.Set("V", v)
+		vm.Set("W", o)
+		vm.Set("V", goV)
+		vm.Run(`V === W; W[N] = V[N]`)
+	case "export-name":
+		if pv, err := vm.Run(`V[N]`); err == nil {
+			pv.Export()
+		}
+		if pv, err := vm.Run(`[V, V[N], {v: V}]`); err == nil {
+			pv.Export()
+			pv.MarshalJSON()
+		}
+		if pv, err := vm.Run(`({v: V, n: V[N], a: [V]})`); err == nil {
+			pv.Export()
+			pv.MarshalJSON()
+		}
+	case "call-export":
+		if pv, err := o.Call(n, 1); err == nil {
+			pv.Export()
+			pv.String()
+		}
+		if pv, err := v.Call(v, 1); err == nil {
+			pv.Export()
+			pv.String()
+		}
+	}
+	if r, err := vm.Run("1+1"); err != nil || r.String() != "2" {
+		return "unusable-after"
+	}
+	return ""
+}
+
 func genBridge(c *h.Ctx) {
+	probe := otto.New()
+	has := func(vi int, n string) (yes bool) {
+		defer func() { recover() }()
+		probe.Set("V", bridgeZoo[vi].mk())
+		probe.Set("N", n)
+		v, err := probe.Run(`N in Object(V)`)
+		return err == nil && v.String() == "true"
+	}
 	for vi := range bridgeZoo {
 		c.Add(fmt.Sprintf("bridge %d -", vi), "bridge:whole-value")
-		for ni := range bridgeNames {
-			c.Add(fmt.Sprintf("bridge %d %d", vi, ni), "bridge:by-name")
+		for ni, n := range bridgeNames {
+			if ni < bridgeGenericNames || has(vi, n) {
+				c.Add(fmt.Sprintf("bridge %d %d", vi, ni), "bridge:by-name")
+			}
+		}
+		for ni := range bridgeGoNames {
+			c.Add(fmt.Sprintf("bridge %d go%d", vi, ni), "bridge:go-api")
+		}
+		// a second bridged value: all of them in the thorough tier, a rotating sixth in quick
+		for wi := range bridgeSecond {
+			if c.Thorough() || (wi+vi+int(c.Seed))%6 == 0 {
+				c.Add(fmt.Sprintf("bridge %d w%d", vi, wi), "bridge:two-values")
+			}
+		}
+		// every built-in with the value as this / argument: all of them in the thorough tier, a rotating eighth in quick
+		for k := 0; k < bridgeFnStride; k++ {
+			if c.Thorough() || k == (vi+int(c.Seed))%bridgeFnStride {
+				c.Add(fmt.Sprintf("bridge %d fn%d", vi, k), "bridge:builtins")
+			}
 		}
 	}
 }
